@@ -601,7 +601,7 @@ func c04Cases(tier string, seed uint64) []fw.Case {
 	}
 	n := 45
 	if tier == "thorough" {
-		n = 2350
+		n = 20000
 	}
 	for i := 0; i < n; i++ {
 		cs = append(cs, fw.Case{Kind: "random", Seed: gen.Sub(seed, "c04r", i), P: map[string]int64{"values": 10}})
